@@ -185,7 +185,11 @@ func TestProp(t *testing.T) {
 					return
 				}
 				s := def.Gen(rt, thorough)
-				res := RunScript(t, s, def.Oracles(), false)
+				ors := def.Oracles()
+				res := RunScript(t, s, ors, false)
+				if def.Post != nil && res.Panic == "" {
+					def.Post(t, s, ors, res)
+				}
 				if shrinking {
 					ws.ShrinkRuns++
 				} else {
@@ -282,6 +286,9 @@ func TestReplay(t *testing.T) {
 		ors = append(ors, &AccountingOracle{})
 	}
 	res := RunScript(t, rf.Script, ors, true)
+	if def.Post != nil && res.Panic == "" {
+		def.Post(t, rf.Script, ors, res)
+	}
 	ws.add(rf.Script, res)
 	for _, v := range res.Violations {
 		ws.ReplayClasses = append(ws.ReplayClasses, v.Class())
